@@ -272,7 +272,11 @@ func regions(format string, data []byte, contentPath string) ([]region, error) {
 			hdr := 96 + 16 + 16*n + sz
 			hdr = (hdr + 7) &^ 7
 			if hdr+32 < len(data) {
-				out = append(out, region{hdr, len(data) - hdr, "rpm:header+payload"})
+				// the 16-byte header intro (magic, entry count, store size) is left alone: a
+				// changed count or size makes the third-party RPM reader allocate gigabytes
+				// (finding C11:alloc:signers/rpm.verify), which says nothing about protection
+				out = append(out, region{hdr + 16, len(data) - hdr - 16, "rpm:header+payload"})
+				rec.Excluded("C11:alloc:signers/rpm.verify (header intro not mutated)")
 			}
 		}
 	case "deb":
